@@ -118,8 +118,8 @@ structure World where
   /-- handle variables of the program: name ↦ index into `acts`; task ids: name ↦ (uuid, level) -/
   vars : List (Nat × Nat) := []
   ids : List (Nat × (Nat × Level)) := []
-  /-- instrumentation: `current_action()` sampled by `probe n` statements -/
-  probes : List (Nat × Option (Nat × Level)) := []
+  /-- instrumentation: `current_action()` sampled by `probe n` statements: (uuid, level, action type) -/
+  probes : List (Nat × Option (Nat × Level × String)) := []
   /-- ghost: every position handed out by `_nextTaskLevel`, as (action handle, position), in order -/
   slots : List (Nat × Nat) := []
 deriving Repr
@@ -239,28 +239,22 @@ Trusted base: extractor fields do not collide with these three keys. -/
 def tracebackFields (env : Env) (e : Exc) (extra : Fields) : Fields :=
   Fields.update [("reason", .str (e.safeStr env)), ("traceback", .tbtext e), ("exception", .str (e.qual env))] extra
 
-/-- `get_fields_for_exception(logger, e)`; a raising extractor is handled by
-`except: write_traceback(logger); return {}`, and `write_traceback` calls
-`get_fields_for_exception` again for the extractor's exception: `fuel` bounds the length of such
-a chain (trusted base: longer chains are outside the model). -/
-def World.getFields (env : Env) : Nat → World → Exc → World × Fields
-  | 0, w, _ => (w, [])
-  | fuel + 1, w, e =>
-    match firstExtractor env (env.mro (e.cls env)) with
-    | none => (w, [])
-    | some f =>
-      let w1 := { w with extCalls := w.extCalls + 1 }
-      match f e w.extCalls with
-      | .ok fs => (w1, fs)
-      | .error e' =>
-        let g := World.getFields env fuel w1 e'
-        (g.1.logNoSer env "eliot:traceback" (tracebackFields env e' g.2), [])
-
-def FUEL : Nat := 8
+/-- `get_fields_for_exception(logger, e)`: the extractor registered for the nearest class in the
+MRO; if it raises, `except: write_traceback(logger); return {}` — and while that failure is being
+logged no extractor is consulted (`_LOGGING_EXTRACTOR_FAILURE`), so the traceback of the
+extractor's own exception carries no extracted fields and the function does not recurse. -/
+def World.getFields (env : Env) (w : World) (e : Exc) : World × Fields :=
+  match firstExtractor env (env.mro (e.cls env)) with
+  | none => (w, [])
+  | some f =>
+    let w1 := { w with extCalls := w.extCalls + 1 }
+    match f e w.extCalls with
+    | .ok fs => (w1, fs)
+    | .error e' => (w1.logNoSer env "eliot:traceback" (tracebackFields env e' []), [])
 
 /-- `write_traceback(logger)` for the exception being handled. -/
 def World.writeTraceback (env : Env) (w : World) (e : Exc) : World :=
-  let g := World.getFields env FUEL w e
+  let g := World.getFields env w e
   g.1.logNoSer env "eliot:traceback" (tracebackFields env e g.2)
 
 /-! ## `Logger.write` -/
@@ -318,7 +312,7 @@ def World.finishRec (env : Env) (w : World) (h : Nat) (exc : Option Exc) : World
       let r := c.1.nextLevel h
       r.1.loggerWrite env (f2.set "task_level" (.lvl r.2)) (a.sers.map (·.2))
     | some e =>
-      let g := World.getFields env FUEL w1 e
+      let g := World.getFields env w1 e
       let f0 := ((g.2.set "exception" (.str (e.qual env))).set "reason" (.str (e.safeStr env))).set "action_status" (.str "failed")
       let c := g.1.clock
       let f1 := f0.set "timestamp" c.2
@@ -492,7 +486,7 @@ def execS (env : Env) (cur : Option Exc) (w : World) : Stmt → World × Outcome
   | .removeDest d => if d ∈ w.dests then ({ w with dests := w.dests.erase d }, .ok) else (w, .stuck)
   | .addGlobals fs => ({ w with globals := w.globals.update fs }, .ok)
   | .probe n =>
-    ({ w with probes := w.probes ++ [(n, w.ctx.bind fun h => (w.acts[h]?).map fun a => (a.uuid, a.level))] }, .ok)
+    ({ w with probes := w.probes ++ [(n, w.ctx.bind fun h => (w.acts[h]?).map fun a => (a.uuid, a.level, a.atype))] }, .ok)
 def execB (env : Env) (cur : Option Exc) (w : World) : Block → World × Outcome
   | .nil => (w, .ok)
   | .cons s rest =>
